@@ -151,7 +151,9 @@ def build(cfg, upto=None):
         sb.memory_map = MemoryMap(addr_width=max(1, sc["aw"] + log2(sdw // sg)), data_width=sg, alignment=sc.get("salign", 0))
         if sc.get("align_to") is not None:
             dec.align_to(sc["align_to"])
-        dec.add(sb, name=sc["name"], addr=sc["addr"], sparse=sc["sparse"])
+        from amaranth.lib.wiring import flipped as _fl
+        kw = {} if (sc["sparse"] is False and i % 2 == 1) else {"sparse": sc["sparse"]}       # sparse=False is the default: given or left out
+        dec.add(_fl(sb) if i % 3 == 2 else sb, name=sc["name"], addr=sc["addr"], **kw)       # a flipped interface is accepted as well
         subs.append(sb)
     def refused_add(dec, k):
         """an add() the decoder must refuse; afterwards it must behave as if the call had never been made"""
